@@ -171,34 +171,42 @@ def hmacKey (h : String) (jwk : Json) : Option Bs :=
   | some k => if k.length < hashLen h then none else if k.length > keymax then none else some k
   | none => none
 
+/-- `hmac.c` verifier: constructor (`jhmac`) and `ver_done` -/
+def hmacVer (P : Prims) (h : String) (sig jwk : Json) : Option (Bs → Bool) :=
+  (hmacKey h jwk).map (fun k => fun msg =>
+    match sigBytes sig with
+    | some s => s.length == hashLen h && P.hmac h k msg == s
+    | none => false)
+
+/-- `ecdsa.c` verifier -/
+def ecdsaVer (P : Prims) (h : String) (sig jwk : Json) : Option (Bs → Bool) :=
+  (P.hash h).bind fun hf =>
+  (ecKeyOf P jwk).map fun key => fun msg =>
+    match sigBytes sig with
+    | some s => s.length == 2 * key.len &&
+        P.ecdsaVerify key.crv key.x key.y (hf msg) (s.take key.len) (s.drop key.len)
+    | none => false
+
+/-- key import and size check of `setup()` in rsassa.c (RFC 7518 §3.3: at least 2048 bits) -/
+def rsaSigKey (jwk : Json) : Option RsaKey :=
+  match jwk.getStr? "kty" with
+  | some "RSA" => (rsaKeyOf jwk).bind fun key => if (stripZeros key.n).length < 256 then none else some key
+  | _ => none
+
+/-- `rsassa.c` verifier -/
+def rsaVer (P : Prims) (pss : Bool) (h : String) (sig jwk : Json) : Option (Bs → Bool) :=
+  (rsaSigKey jwk).map fun key => fun msg =>
+    match sigBytes sig with
+    | some s => P.rsaVerify pss h key.n key.e msg s
+    | none => false
+
 /-- verification leaf: `none` = the constructor returned NULL; otherwise the verdict
     as a function of everything fed (protected '.' payload) -/
 def verLeaf (P : Prims) (name : String) (sig jwk : Json) : Option (Bs → Bool) :=
   match family name with
-  | some (.hmac h) =>
-    match hmacKey h jwk with
-    | none => none
-    | some k => some (fun msg =>
-        match sigBytes sig with
-        | some s => s.length == hashLen h && P.hmac h k msg == s
-        | none => false)
-  | some (.ecdsa h) =>
-    match P.hash h, ecKeyOf P jwk with
-    | some hf, some key => some (fun msg =>
-        match sigBytes sig with
-        | some s => s.length == 2 * key.len &&
-            P.ecdsaVerify key.crv key.x key.y (hf msg) (s.take key.len) (s.drop key.len)
-        | none => false)
-    | _, _ => none
-  | some (.rsa pss h) =>
-    match jwk.getStr? "kty", rsaKeyOf jwk with
-    | some "RSA", some key =>
-      if (stripZeros key.n).length < 256 then none
-      else some (fun msg =>
-        match sigBytes sig with
-        | some s => P.rsaVerify pss h key.n key.e msg s
-        | none => false)
-    | _, _ => none
+  | some (.hmac h) => hmacVer P h sig jwk
+  | some (.ecdsa h) => ecdsaVer P h sig jwk
+  | some (.rsa pss h) => rsaVer P pss h sig jwk
   | none => none
 
 /-- signing leaf: `none` = constructor NULL; else message → randomness → signature -/
@@ -213,14 +221,10 @@ def sigLeaf (P : Prims) (name : String) (jwk : Json) : Option (Bs → Bs → Opt
         | some d => (P.ecdsaSign key.crv d (hf msg) rnd).map (fun rs => rs.1 ++ rs.2))
     | _, _ => none
   | some (.rsa pss h) =>
-    match jwk.getStr? "kty", rsaKeyOf jwk with
-    | some "RSA", some key =>
-      if (stripZeros key.n).length < 256 then none
-      else some (fun msg rnd =>
-        match key.d with
-        | none => none
-        | some d => P.rsaSign pss h key.n d msg rnd)
-    | _, _ => none
+    (rsaSigKey jwk).map fun key => fun msg rnd =>
+      match key.d with
+      | none => none
+      | some d => P.rsaSign pss h key.n d msg rnd
   | none => none
 
 /-- `prefix(io, sig)`: the protected text and a '.'; refuses a protected header that is not text -/
@@ -250,29 +254,22 @@ def verSelect (halg kalg : Option String) : Option String :=
   | some h, none => some h
   | some h, some k => if h = k then some h else none
 
+/-- the stage a verification leaf is: everything fed is accumulated, `done` decides -/
+def leafStage (f : Bs → Bool) (pre : Bs) : IO.Stage :=
+  .xform { final := fun acc => if f (pre ++ acc) then some [] else none } .sink
+
 /-- one signature object against one key -/
 def verOne (P : Prims) (sig jwk : Json) : Option IO.Stage :=
-  match sig with
-  | .obj _ =>
-    match optStr jwk "alg", jwsHdr sig with
-    | some kalg, some hdr =>
-      match optStr hdr "alg" with
-      | none => none
-      | some halg =>
-        match verSelect halg kalg with
-        | none => none
-        | some name =>
-          match findSign name with
-          | none => none
-          | some a =>
-            if !Jwk.prm (some jwk) false a.p2 then none
-            else
-              match verLeaf P name sig jwk, prefixOf sig with
-              | some f, some pre =>
-                some (.xform { final := fun acc => if f (pre ++ acc) then some [] else none } .sink)
-              | _, _ => none
-    | _, _ => none
-  | _ => none
+  if !sig.isObject then none else
+  (optStr jwk "alg").bind fun kalg =>
+  (jwsHdr sig).bind fun hdr =>
+  (optStr hdr "alg").bind fun halg =>
+  (verSelect halg kalg).bind fun name =>
+  (findSign name).bind fun a =>
+  if !Jwk.prm (some jwk) false a.p2 then none else
+  (verLeaf P name sig jwk).bind fun f =>
+  (prefixOf sig).bind fun pre =>
+  some (leafStage f pre)
 
 def branchesOf : List IO.Stage → IO.Branches
   | [] => .nil
@@ -290,22 +287,30 @@ def verKey (P : Prims) (jws : Json) (sig : Option Json) (jwk : Json) : Option IO
   | none => verAllSigs P jws jwk
   | some s => verOne P s jwk
 
-/-- keys array / JWKSet: one sub-verifier per key.  A nested key array is handed to the same code -/
+/-- the signature argument handed down for key number `i`: the object itself, the `i`-th
+    element of an array, otherwise NULL -/
+def sigFor (sig : Option Json) (i : Nat) : Option Json :=
+  match sig with
+  | some (.obj kvs) => some (.obj kvs)
+  | some (.arr l) => l[i]?
+  | _ => none
+
+/-- sub-verifier for key number `i` (nested key lists are not modelled: NULL) -/
+def subFor (P : Prims) (jws : Json) (sig : Option Json) (keys : List Json) (i : Nat) : Option IO.Stage :=
+  match keys[i]? with
+  | some k => (match keyList k with
+      | some _ => none
+      | none => verKey P jws (sigFor sig i) k)
+  | none => none
+
+def sigSizeOk (sig : Option Json) (n : Nat) : Bool :=
+  match sig with | some (.arr l) => l.length == n | _ => true
+
+/-- keys array / JWKSet: one sub-verifier per key -/
 def verKeys (P : Prims) (jws : Json) (sig : Option Json) (keys : List Json) (all : Bool) : Option IO.Stage :=
-  let sigFor (i : Nat) : Option Json :=
-    match sig with
-    | some (.obj kvs) => some (.obj kvs)
-    | some (.arr l) => l[i]?
-    | _ => none
-  let sizeOk := match sig with | some (.arr l) => l.length == keys.length | _ => true
-  if !sizeOk then none
+  if !sigSizeOk sig keys.length then none
   else
-    let subs := (List.range keys.length).map (fun i =>
-      match keys[i]? with
-      | some k => (match keyList k with
-          | some _ => none         -- nested arrays: not modelled, refused by the generators
-          | none => verKey P jws (sigFor i) k)
-      | none => none)
+    let subs := (List.range keys.length).map (subFor P jws sig keys)
     if all && subs.any Option.isNone then none
     else some (.plex all (branchesOf (subs.filterMap id)))
 
@@ -332,57 +337,58 @@ def ver (P : Prims) (jws : Json) (sig : Option Json) (jwk : Json) (all : Bool) :
 
 /-! ### jose_jws_sig_io / jose_jws_sig -/
 
+/-- record an inferred algorithm in the protected header (created if absent; an
+    already-encoded protected header cannot take it) -/
+def recordAlg (s : Json) (name : String) : Option Json :=
+  match s with
+  | .obj kvs =>
+    match lookup "protected" kvs with
+    | none => some (.obj (setKV "protected" (.obj [("alg", .str name)]) kvs))
+    | some (.obj p) => some (.obj (setKV "protected" (.obj (setKV "alg" (.str name) p)) kvs))
+    | some _ => none
+  | _ => none
+
+/-- which algorithm: the merged header's, else the first suggestion over the registry,
+    which is then recorded -/
+def chooseAlg (s jwk hdr : Json) : Option (String × AlgRec × Json) :=
+  match hdr.getStr? "alg" with
+  | some halg => (findSign halg).map (fun a => (halg, a, s))
+  | none =>
+    (sigSug jwk).bind fun halg =>
+    (findSign halg).bind fun a =>
+    (recordAlg s a.name).map fun s' => (halg, a, s')
+
+/-- a key that declares an algorithm is only used for that algorithm -/
+def keyAlgOk (kalg : Option String) (halg : String) : Bool :=
+  match kalg with
+  | some k => k == halg
+  | none => true
+
 /-- `find_alg` of lib/jws.c: the algorithm and the signature object with `alg` recorded -/
 def findAlgSig (s jwk : Json) : Option (AlgRec × Json) :=
-  match jwsHdr s with
-  | none => none
-  | some hdr =>
-    let r : Option (String × AlgRec × Json) :=
-      match hdr.getStr? "alg" with
-      | some halg => (findSign halg).map (fun a => (halg, a, s))
-      | none =>
-        match sigSug jwk with
-        | none => none
-        | some halg =>
-          match findSign halg with
-          | none => none
-          | some a =>
-            -- record the inferred name in the protected header (created if absent)
-            match s with
-            | .obj kvs =>
-              (match lookup "protected" kvs with
-               | none => some (halg, a, .obj (setKV "protected" (.obj [("alg", .str a.name)]) kvs))
-               | some (.obj p) => some (halg, a, .obj (setKV "protected" (.obj (setKV "alg" (.str a.name) p)) kvs))
-               | some _ => none)
-            | _ => none
-    match r with
-    | none => none
-    | some (halg, a, s') =>
-      match optStr jwk "alg" with
-      | none => none
-      | some kalg =>
-        if (match kalg with | some k => k != halg | none => false) then none
-        else if !Jwk.prm (some jwk) false a.p1 then none
-        else some (a, s')
+  (jwsHdr s).bind fun hdr =>
+  (chooseAlg s jwk hdr).bind fun r =>
+  (optStr jwk "alg").bind fun kalg =>
+  if !keyAlgOk kalg r.1 then none
+  else if !Jwk.prm (some jwk) false r.2.1.p1 then none
+  else some (r.2.1, r.2.2)
 
-/-- one key: the signature object as it is appended (protected encoded, alg recorded, signature set) -/
-def sigEntry (P : Prims) (sig : Option Json) (jwk : Json) (payload rnd : Bs) : Option Json :=
-  let s := match sig with | some s => s | none => .obj []
-  match s with
-  | .obj _ =>
-    match findAlgSig s jwk with
-    | none => none
-    | some (a, s1) =>
-      match encodeProtected s1 with
-      | none => none
-      | some s2 =>
-        match sigLeaf P a.name jwk, prefixOf s2 with
-        | some f, some pre =>
-          match f (pre ++ payload) rnd, s2 with
-          | some sv, .obj kvs => some (.obj (setKV "signature" (B64.enc sv) kvs))
-          | _, _ => none
-        | _, _ => none
+/-- the signature object as it is appended: algorithm found and recorded, protected
+    header encoded, signature over protected '.' payload set -/
+def sigEntryObj (P : Prims) (s jwk : Json) (payload rnd : Bs) : Option Json :=
+  if !s.isObject then none else
+  (findAlgSig s jwk).bind fun r =>
+  (encodeProtected r.2).bind fun s2 =>
+  (sigLeaf P r.1.name jwk).bind fun f =>
+  (prefixOf s2).bind fun pre =>
+  (f (pre ++ payload) rnd).bind fun sv =>
+  match s2 with
+  | .obj kvs => some (.obj (setKV "signature" (B64.enc sv) kvs))
   | _ => none
+
+/-- one key; a NULL template is `{}` -/
+def sigEntry (P : Prims) (sig : Option Json) (jwk : Json) (payload rnd : Bs) : Option Json :=
+  sigEntryObj P (match sig with | some s => s | none => .obj []) jwk payload rnd
 
 def SIGKEYS : List String := ["signature", "protected", "header"]
 
